@@ -22,7 +22,8 @@ MANIFEST = {
             "identically, otherwise strict ends in one of the four documented kinds. The obligation re-checked in the kernel on every "
             "run is catch coverage: the except tuples REGENERATED from object_hook / _failsafe_construct contain every raisable kind. "
             "Tie: differential run on single-damage documents (JSON and XML) of the readers vs. the propagation model with the "
-            "regenerated recover points; the leaf's exception kind is taken from the strict reader's root cause.",
+            "regenerated recover points; the leaf's exception kind is taken from the strict reader's root cause."
+            " Also regenerated and proved: the decision table of _select_decoder and the failsafe/stripped flags of the decoder classes (attribute lookup along the MRO): the class selected for (failsafe, stripped) has exactly these modes (c09_mode_selection).",
     "note": "partial for non-well-formed bytes: 'syntax error or empty result' concerns json/lxml and is exercised by the oracle, not "
             "proved; duplicate-id and wrong-list handling are checked by the oracle only; which exception a damaged leaf raises is "
             "observed (root cause in strict mode), the model decides where it is caught",
